@@ -1,27 +1,12 @@
 INIT Init
 NEXT Next
 CONSTANTS
-  Keys <- K3
-  AllowedKeys <- A_AB
-  AllowedModes <- YesNo
-  Forms = {"bare", "n"}
-  IntCoefs <- I_2
-  DecCoefs <- None
-  InactCoefs <- I_2
-  MaxReac = 2
-  MaxProd = 2
-  MaxInact = 1
-  Arrows = {"->", "="}
-  Params <- P_one
-  Kws <- None
-  MaxLines = 1
-  Comments <- None
-  MaxComments = 0
-  PrintOpts <- O_two
-  FaultKinds <- F_all
+  SliceTable <- AllSlices
+  SliceNames = {"faults_t"}
 INVARIANT TypeOK
 INVARIANT RepeatedSpeciesSummed
 INVARIANT InactiveNeverActive
 INVARIANT ParsePrintIdentity
+INVARIANT TextWins
 INVARIANT Emit
 CHECK_DEADLOCK FALSE
